@@ -470,7 +470,11 @@ def proof_obligations(ctx):
             ok += 1
     ctx.discharged = 0 if (rc != 0 or hits) else ok
     ctx.axioms = sorted(axioms)
-    translated_obligations(ctx)
+    try:
+        translated_obligations(ctx)
+    except Exception as e:      # fail closed, but let the correspondence and the oracle run
+        ctx.proof_failures.append({"what": "translated obligations crashed: %r" % (e,),
+                                   "traceback": traceback.format_exc()[-2000:]})
 
 
 # --------------------------------------------------------------------------
@@ -543,7 +547,7 @@ def translated_obligations(ctx):
     hits = _scan_text("GenProofs/GenTactics.v", open(os.path.join(GENPROOFS, "GenTactics.v")).read())
     for en in entries:
         ctx.obligations += len(en["theorems"])
-        names = ", ".join((c + "." if c else "") + f for c, f in en["functions"])
+        names = ", ".join((it[0] + "." if it[0] else "") + it[1] for it in en["functions"])
         try:
             text, info = py2coq.translate_spec(REPO, en)
         except Exception as e:  # Unsupported, SyntaxError, missing file ...: fail closed
